@@ -121,6 +121,10 @@ def sx_str(x=""):
         return x.bytes_repr()
     if _real_isinstance(x, SymInt):
         return sx_dec(x.e)
+    if _real_isinstance(x, BaseException) and type(x).__str__ in (BaseException.__str__, Exception.__str__) and _any_proxy(x.args):
+        if len(x.args) == 1:
+            return sx_str(x.args[0])
+        raise ProxyLeak("str() of an exception with several proxy arguments")
     return _real_str(x)
 
 
